@@ -63,3 +63,72 @@ def fresh_draws(c, ncalls, hash_name, same):
     names = [id(d[2]) for d in w.draws]
     c.check(len(set(names)) == len(names) == 3 * ncalls and all(spans[i][1] == spans[i + 1][0] for i in range(ncalls - 1)), "no draw shared between calls")
     return len(w.draws)
+
+
+@harness(P, params=lambda tier: [dict(alg=a, hash_name=h) for a, h in ([("DH", "SHA256"), ("ECDH_P256", "SHA512")] if tier == "quick" else
+                                                                        [("DH", "SHA1"), ("DH", "SHA256"), ("ECDH_P256", "SHA512"), ("ECDH_P384", "SHA384")])],
+         raises=(ValueError,), max_steps=3000000,
+         bounds="public-key mode (DH over a 32-bit group, ECDH P256/P384): 3 consecutive protect calls with identical arguments for a caller who only receives the group public key "
+         "(every call asks the DC stub, which returns the same public-key envelope); each blob's ephemeral public key must be the group element of a private key drawn from the RNG "
+         "during that very call (ceil(private_key_length/8) bytes), CEK and GCM nonce likewise", outside="longer sequences; P521",
+         must_reach=("public-key mode: ephemeral key, CEK and nonce are draws of the call",))
+def fresh_draws_public(c, alg, hash_name):
+    import uuid
+
+    from dpapi_ng import _client, _gkdi
+
+    from symex import values as V
+
+    lo, _ = e2e.window(361, 9, 9, -10, -10)
+    holder = {}
+
+    def get_key(*a, **k):
+        holder["rpc"] = holder.get("rpc", 0) + 1
+        return c.call(_gkdi.GroupKeyEnvelope.unpack, holder["env"])
+
+    w = e2e.new_world(c, lo, lo, extra=[(_client._sync_get_key, get_key)])
+    priv_bits = {"DH": 512, "ECDH_P256": 256, "ECDH_P384": 384}[alg]
+    nbytes = priv_bits // 8
+    x = c.int("group_private", 1, (1 << 200))
+    if alg == "DH":
+        # a small group keeps the element comparisons cheap for the solver; the code under test is indifferent to the group size
+        prm = _gkdi.FFCDHParameters(4, 0xFFFFFFFB, 5)
+        y = w.algebra.pow(prm.generator, x, prm.field_order)
+        pub = refs.ref_ffcdh_key(prm.key_length, prm.field_order, prm.generator, y)
+        sec_params, publen = prm.pack(), 32
+    else:
+        cname = {"ECDH_P256": "secp256r1", "ECDH_P384": "secp384r1"}[alg]
+        el = w.algebra._ec_element(cname, ("G", "G"), [x])
+        pub = refs.ref_ecdh_key(alg[-4:], nbytes, el["x"], el["y"])
+        sec_params, publen = b"", priv_bits
+    holder["env"] = refs.ref_group_key_envelope(1, 3, 361, 9, 9, e2e.RK.bytes_le, "SP800_108_CTR_HMAC", refs.ref_kdf_parameters(hash_name), alg, sec_params, priv_bits, publen, "d.t", "f.t", b"", pub)
+    cache = dpapi_ng.KeyCache()
+    pt = c.bytes("pt", 9)
+    conds = []
+    seen_ids = []
+    for i in range(3):
+        before = len(w.draws)
+        blob = c.call(dpapi_ng.ncrypt_protect_secret, pt, e2e.SIDS[0], server="dc", cache=cache)
+        draws = w.draws[before:]
+        b = c.call(_blob.DPAPINGBlob.unpack, blob)
+        eph = [d for d in draws if d[0] == "urandom" and d[1] == nbytes]
+        d12 = [d for d in draws if d[1] == 12]
+        d32k = [d for d in draws if d[0] == "generate_key"]
+        ok = [len(draws) == 3, len(eph) == 1, len(d12) == 1, len(d32k) == 1, holder.get("rpc") == i + 1, b.key_identifier.is_public_key]
+        if all(ok):
+            e = V.int_from_bytes(eph[0][2], "big") if c.symbolic else int.from_bytes(eph[0][2], "big")
+            if alg == "DH":
+                k = c.call(_gkdi.FFCDHKey.unpack, b.key_identifier.key_info)
+                ok.append(k.public_key == w.algebra.pow(prm.generator, e, prm.field_order))
+            else:
+                k = c.call(_gkdi.ECDHKey.unpack, b.key_identifier.key_info)
+                mine = w.algebra._ec_element(cname, ("G", "G"), [e])
+                ok.append(all_of([k.x == mine["x"], k.y == mine["y"]]))
+            ok.append(seq_eq(b.enc_content_parameters, refs.ref_gcm_parameters(d12[0][2])))
+            wrec = [r for r in w.wraps if same_syms(r[0][1], b.enc_cek)]
+            ok.append(len(wrec) == 1 and seq_eq(wrec[0][1], d32k[0][2]))
+        conds += ok
+        seen_ids += [id(d[2]) for d in draws]
+    c.check(all_of([x_ if isinstance(x_, bool) else x_ for x_ in conds]), "public-key mode: ephemeral key, CEK and nonce are draws of the call")
+    c.check(len(set(seen_ids)) == 9, "no draw shared between calls")
+    return len(w.draws)
